@@ -6,7 +6,7 @@ use proptest::prelude::*;
 use proptest::sample::select;
 use refmodel::ast::{render_tokens, AssignOp, Ast, BinOp, BitChoices};
 use refmodel::gen;
-use refmodel::interp::{log_describe, log_same, run_full, Ctx, Kind, UF};
+use refmodel::interp::{log_describe, log_same, Ctx, Kind, UF};
 use refmodel::tok;
 use refmodel::value::{outcome_canon, outcome_matches, RE, RV};
 use vcore::serde_json::{json, Value as J};
@@ -153,7 +153,7 @@ pub fn case_json(src: &str, ctx: &Ctx) -> J {
 /// Evaluate `src` mutably in the real context built from `ctx` and compare (result, final
 /// context, call log) with the reference interpreter run on the reference parse of `src`.
 pub fn check_source(prop: &str, src: &str, ctx: &Ctx, expected_ast: Option<&Ast>, l: &mut Local) -> Outcome {
-    check_source_with(prop, src, ctx, expected_ast, &["x", "y", "z", "w", "a", "b", "c"], true, l)
+    check_source_with(prop, src, ctx, expected_ast, &["x", "y", "z", "w", "a", "b", "c"], prop == "C08", l)
 }
 
 /// As `check_source`, with the variable names probed in the final context and whether C08's own
@@ -184,10 +184,11 @@ pub fn check_source_with(
         }
     }
     let mut model = ctx.clone();
-    let exp = run_full(&ast, &mut model, true, matrix::unit());
+    // the order inside `x op= e` with x unbound (D15) is asserted by C08 only
+    let exp = refmodel::interp::run_full_opts(&ast, &mut model, true, matrix::unit(), c08_labels);
     if let Err(e) = &exp.result {
         if e.is_unclaimed() {
-            l.label("unclaimed (D8 / D11) reached");
+            l.label("unclaimed (D8 / D11 / D15) reached");
             return Ok(());
         }
     }
